@@ -13,7 +13,7 @@ EXTENDS RangeSem, FiniteSets, TLC, Json, IOUtils
 
 CONSTANTS MaxLen, MaxInt, MaxElems, MaxMuts, MapScripts
 
-Alphabet == {0, 65, 127, 128, 191, 194, 223, 224, 160, 237, 159, 240, 144, 244, 143, 255}
+Alphabet == {0, 65, 127, 128, 191, 194, 223, 224, 160, 237, 159, 240, 144, 244, 143, 255, 239, 189}   \* 239 191 189 = U+FFFD, validly encoded
 Strings == UNION {[1..m -> Alphabet] : m \in 0..MaxLen}
 \* extra strings from the harness (ndjson lines {"s":[bytes]}), empty sequence when not provided
 Extra == IF "VERIF_STRINGS" \in DOMAIN IOEnv /\ IOEnv.VERIF_STRINGS # "" THEN ndJsonDeserialize(IOEnv.VERIF_STRINGS) ELSE <<>>
@@ -37,9 +37,12 @@ ChanInit(n) == [buf |-> [j \in 1..n |-> 10 * j], closed |-> FALSE, sent |-> n, m
 \*      mutations "at the n-th visit delete / insert key k"); the expected behaviour is not a
 \*      single trace: Trace_Map.tla validates what the loops did
 MapKeys == 0..3
+\* key 4 is a float64 NaN held in the interface key: not equal to itself, so it can be neither looked up nor
+\* deleted; it only occurs in the initial population (at most one such entry), the scripts mutate keys 0..3
+InitKeys == 0..4
 MapMuts == {[at |-> at, op |-> op, k |-> k] : at \in 1..2, op \in {"delete", "insert"}, k \in MapKeys}
 MapCases == {[keys |-> ks, nilval |-> nv, script |-> sc] :
-               ks \in {s \in SUBSET MapKeys : Cardinality(s) <= 3},
+               ks \in {s \in SUBSET InitKeys : Cardinality(s) <= 3},
                nv \in {0 - 2, 2},
                sc \in {<<>>} \cup {<<m>> : m \in MapMuts} \cup {<<m1, m2>> : m1 \in MapMuts, m2 \in MapMuts}}
 
